@@ -4,14 +4,54 @@ import (
 	"errors"
 	"runtime"
 	"runtime/debug"
+	"sync"
 
 	rt "github.com/arnodel/golua/runtime"
 )
 
-var gcPercent int
-var gcRunning bool
+// The Go collector is shared by all the runtimes in the process.  Each runtime
+// has its own "stopped" setting (so that stopping the collector in one runtime
+// cannot be observed in another) and the Go collector is really stopped while
+// at least one runtime wants it stopped.
+var (
+	gcMutex     sync.Mutex
+	gcPercent   int // the GC percent setting of the process, captured at init
+	gcStopCount int // number of runtimes that currently want the collector stopped
+)
 
-func collectgarbage(t *rt.Thread, c *rt.GoCont) (rt.Cont, error) {
+type gcControl struct {
+	stopped bool
+}
+
+func (g *gcControl) stop() {
+	gcMutex.Lock()
+	defer gcMutex.Unlock()
+	if !g.stopped {
+		g.stopped = true
+		gcStopCount++
+		if gcStopCount == 1 {
+			debug.SetGCPercent(-1)
+		}
+	}
+}
+
+func (g *gcControl) restart() {
+	gcMutex.Lock()
+	defer gcMutex.Unlock()
+	if g.stopped {
+		g.stopped = false
+		gcStopCount--
+		if gcStopCount == 0 {
+			debug.SetGCPercent(gcPercent)
+		}
+	}
+}
+
+func (g *gcControl) running() bool {
+	return !g.stopped && gcPercent != -1
+}
+
+func (g *gcControl) collectgarbage(t *rt.Thread, c *rt.GoCont) (rt.Cont, error) {
 	opt := "collect"
 	if c.NArgs() > 0 {
 		optv, err := c.StringArg(0)
@@ -29,13 +69,11 @@ func collectgarbage(t *rt.Thread, c *rt.GoCont) (rt.Cont, error) {
 		t.CollectGarbage()
 		t.Push1(next, rt.BoolValue(true))
 	case "stop":
-		debug.SetGCPercent(-1)
-		gcRunning = false
+		g.stop()
 	case "restart":
-		debug.SetGCPercent(gcPercent)
-		gcRunning = gcPercent != -1
+		g.restart()
 	case "isrunning":
-		t.Push1(next, rt.BoolValue(gcRunning))
+		t.Push1(next, rt.BoolValue(g.running()))
 	case "setpause":
 		// TODO: perhaps change gcPercent to reflect this?
 	case "setstepmul":
@@ -52,6 +90,5 @@ func collectgarbage(t *rt.Thread, c *rt.GoCont) (rt.Cont, error) {
 
 func init() {
 	gcPercent = debug.SetGCPercent(-1)
-	gcRunning = gcPercent != -1
 	debug.SetGCPercent(gcPercent)
 }
